@@ -123,11 +123,47 @@ SameObl(name, a, b, k) ==
 (* obligations speak about; the object has the first Len(eff) components.  *)
 (* form: "dict" | "text" (an expression string, proportions in any number  *)
 (* spelling) | "" (the harness alternates).                                *)
+(* sels: row selections (index lists) with which data_composite(components *)
+(* = ...) is observed as well.  via = "reused_solver": the expression text *)
+(* is solved by a MaterialSolver instance that has just rejected another   *)
+(* expression.                                                             *)
 (***************************************************************************)
 Other(mode) == IF mode = "MASS_FRACTION" THEN "NUMBER_FRACTION" ELSE "MASS_FRACTION"
+\* every non-empty selection of the components 1..n (in component order)
+RECURSIVE Subseqs(_)
+Subseqs(n) == IF n = 0 THEN << <<>> >> ELSE LET r == Subseqs(n - 1) IN r \o [i \in 1..Len(r) |-> Append(r[i], n)]
+Selections(n) == Tail(Subseqs(n))
+RECURSIVE SelId(_)
+SelId(sel) == IF sel = <<>> THEN "" ELSE IStr(Head(sel)) \o SelId(Tail(sel))
+\* a selected row is the row of the full table; the 'sum' row adds the selected rows
+SelObl(nm, sels) ==
+  LET one(sel) ==
+        LET id == nm \o ".sel." \o SelId(sel)
+            RECURSIVE Per(_)
+            Per(r) == IF r > Len(sel) THEN <<>> ELSE
+                      << Approx("selected row = row: x", Obs(id \o ".x." \o IStr(sel[r])), Obs(nm \o ".x." \o IStr(sel[r]))),
+                         Approx("selected row = row: X", Obs(id \o ".X." \o IStr(sel[r])), Obs(nm \o ".X." \o IStr(sel[r]))) >> \o Per(r + 1)
+        IN  Per(1) \o << Approx("selected sum x", Obs(id \o ".sum.x"), Sum([r \in 1..Len(sel) |-> Obs(nm \o ".x." \o IStr(sel[r]))])),
+                          Approx("selected sum X", Obs(id \o ".sum.X"), Sum([r \in 1..Len(sel) |-> Obs(nm \o ".X." \o IStr(sel[r]))])) >>
+      RECURSIVE All(_)
+      All(j) == IF j > Len(sels) THEN <<>> ELSE one(sels[j]) \o All(j + 1)
+  IN  All(1)
+\* what the selections report: row of component sel[r]; a mutation reads the r-th entry instead
+SelEnv(nm, fr, sels, mu) ==
+  LET one(sel) ==
+        LET id == "obs:" \o nm \o ".sel." \o SelId(sel)
+            vx == [r \in 1..Len(sel) |-> IF mu = "selection_by_position" THEN fr.x[r] ELSE fr.x[sel[r]]]
+            vX == [r \in 1..Len(sel) |-> IF mu = "selection_by_position" THEN fr.X[r] ELSE fr.X[sel[r]]]
+            RECURSIVE Per(_)
+            Per(r) == IF r > Len(sel) THEN <<>> ELSE
+                      ((id \o ".x." \o IStr(sel[r])) :> vx[r]) @@ ((id \o ".X." \o IStr(sel[r])) :> vX[r]) @@ Per(r + 1)
+        IN  Per(1) @@ ((id \o ".sum.x") :> QSumSeq(vx)) @@ ((id \o ".sum.X") :> QSumSeq(vX))
+      RECURSIVE All(_)
+      All(j) == IF j > Len(sels) THEN <<>> ELSE one(sels[j]) @@ All(j + 1)
+  IN  All(1)
 Obj(name, how, cls, mode, props, steps, of, eff) ==
   [name |-> name, how |-> how, cls |-> cls, mode |-> mode, props |-> props, steps |-> steps, of |-> of, eff |-> eff,
-   form |-> "", comp |-> 0, q |-> Q(0, 1), pre |-> eff]
+   form |-> "", comp |-> 0, q |-> Q(0, 1), pre |-> eff, sels |-> <<>>, via |-> ""]
 Objects(sc, k) ==
   LET pA == [i \in 1..k |-> Inp("A.p." \o IStr(i))]
       pB == [i \in 1..k |-> Inp("B.p." \o IStr(i))]
@@ -175,6 +211,8 @@ Objects(sc, k) ==
                  ELSE << Aa, Bb, Obj("R", "sum", sc.cls, sc.mode, <<>>, <<>>, <<"A", "B">>, pR),
                          [Obj("B3", "step", sc.cls, sc.mode, <<>>, st, <<"B">>, up(pB)) EXCEPT !.pre = pB],
                          A2, Obj("R2", "again", sc.cls, sc.mode, <<>>, <<>>, <<"R">>, pR) >>
+        [] sc.kind = "selection" -> << [A EXCEPT !.sels = Selections(k)] >>
+        [] sc.kind = "solver_reuse" -> << [A EXCEPT !.form = "text", !.via = "reused_solver"] >>
         [] sc.kind = "forms" ->                  \* the same material given as dict and as expression text
              << [A EXCEPT !.form = "dict"], [Obj("B", "build", sc.cls, sc.mode, pA, <<>>, <<>>, pA) EXCEPT !.form = "text"] >>
 Obligations(sc, k) ==
@@ -188,6 +226,7 @@ Obligations(sc, k) ==
              [] sc.kind = "perturbed"   -> SameObl("unit of a reported quantity changed", "A", "P", k)
              [] sc.kind = "sum_component" -> SameObl("operand unchanged", "A", "A2", Len(objs[1].eff))
              [] sc.kind = "forms"       -> SameObl("text form = dict form", "A", "B", k)
+             [] sc.kind = "selection"   -> SelObl("A", objs[1].sels)
              [] sc.kind = "sum_then_add" ->
                   SameObl("operand unchanged", "A", "A2", k - 1)
                   \o (IF sc.j = 0 THEN SameObl("operand unchanged after the sum was changed", "B", "B2", k)
@@ -214,7 +253,8 @@ ScEnv(sc, ps, ms, F(_, _, _, _, _), mu) ==
                  alias == mu = "operand_aliased" /\ sc.kind = "sum_then_add" /\ o.name \in {"B2", "R2"}
                  effx == IF alias THEN [n \in 1..Len(eff) |-> IF n = Len(eff) THEN QAdd(eff[n], <<2, 1>>) ELSE eff[n]] ELSE eff
                  mo  == SubSeq(ms, 1, Len(eff))
-             IN  Go(i + 1, env @@ ObjEnv(o.name, mo, F(o.mode, effx, IF alias THEN eff ELSE pn, mo, o.how = "perturb")))
+                 fr  == F(o.mode, effx, IF alias THEN eff ELSE pn, mo, o.how = "perturb")
+             IN  Go(i + 1, env @@ ObjEnv(o.name, mo, fr) @@ SelEnv(o.name, fr, o.sels, mu))
   IN  Go(1, inp)
 
 ---------------------------------------------------------------------------
@@ -231,6 +271,8 @@ Scenarios ==
       \cup {S("sum_component", c, <<1, 1>>, j) : c \in cm, j \in {0, 1}}
       \cup {S("forms", <<"material", md>>, <<1, 1>>, 0) : md \in Modes}
       \cup {S("sum_then_add", c, <<1, 1>>, j) : c \in cm, j \in {0, 1}}
+      \cup {S("selection", c, <<1, 1>>, 0) : c \in cm}
+      \cup {S("solver_reuse", <<"material", md>>, <<1, 1>>, 0) : md \in Modes}
 
 VARIABLES comps, sc
 Init == comps = <<>> /\ sc = NoSc
